@@ -337,6 +337,23 @@ def work_da(arg):
             if search and (abs(ex - 3) < 1e-4 or abs(ex - 1) < 1e-4):
                 extra['search_ended_at_bound'] = True
             v('recovery', f'limits {lim}: volume {vol}, energy {pot}, exponent {ex} (generator {V0}, {E}, {m})', [V0, E, m], [vol, pot, ex], extra)
+    # the exponent is searched on the points inside the limits only: exact DA data inside, other (external-surface) uptake outside
+    if search and len(p) >= 20:
+        for frac in (0.6, 0.8):
+            cut = (p[int(frac * len(p))] + p[int(frac * len(p)) + 1]) / 2
+            n2 = n + 0.5 * n.max() * numpy.maximum(0.0, p - cut) / max(p[-1] - cut, 1e-12)
+            lim = (None, cut)
+            w, npts = window_expected(p, None, cut)
+            ref = core.call(da_plot_raw, p[:w[1] + 1].copy(), n[:w[1] + 1].copy(), T, M, rho, None, (None, None))
+            o = core.call(da_plot_raw, p.copy(), n2.copy(), T, M, rho, None, lim)
+            out['ev'] += 1
+            if not ref.ok or npts < 8:
+                continue
+            out['nt'] += 1
+            # differential: the same points alone (nothing outside) give the reference exponent
+            if not o.ok or rel(o.value[2], ref.value[2]) > 1e-3 or rel(o.value[0], ref.value[0]) > 1e-3 or rel(o.value[1], ref.value[1]) > 1e-3:
+                v('search-uses-points-outside-limits', f'upper limit {cut:.4g} with non-DA uptake above it: volume/energy/exponent {o.value[:3] if o.ok else o.brief()} but the points inside the '
+                  f'limits alone give {ref.value[:3]} (generator {V0}, {E}, {m})', list(ref.value[:3]), list(o.value[:3]) if o.ok else o.brief())
     return out
 
 
